@@ -235,16 +235,21 @@ func c06TimeDeterminate(cfg *c06SigCfg, v *c06View, nowB, nowA int64) bool {
 }
 
 func c06RunCase(in c06In, id string, seq int) vfCase {
-	obs := c06Obs{}
-	cookie := ""
-	if in.Cfg.JWT != nil {
-		cookie = in.Cfg.JWT.Cookie
-	}
 	v, err := c06NewValidator(&in.Cfg, seq)
 	if err != nil {
 		panic(fmt.Sprintf("verif: harness defect: case %s has an invalid configuration: %v", id, err))
 	}
 	defer v.Close()
+	return vfCase{ID: id, Grp: "v", In: in, Obs: c06RunOn(v, in)}
+}
+
+// c06RunOn presents the request of the case to an existing validator instance (configured as in.Cfg).
+func c06RunOn(v *Validator, in c06In) c06Obs {
+	obs := c06Obs{}
+	cookie := ""
+	if in.Cfg.JWT != nil {
+		cookie = in.Cfg.JWT.Cookie
+	}
 	// a ttl of a few seconds against timestamps of one second resolution: sign right after a second starts
 	phase := in.Cfg.Sig != nil && in.Plan != nil && in.Cfg.Sig.ttlNs() > 0 && in.Cfg.Sig.ttlNs() < int64(4*time.Second) &&
 		in.Plan.AgeS >= -4 && in.Plan.AgeS <= 4
@@ -279,7 +284,7 @@ func c06RunCase(in c06In, id string, seq int) vfCase {
 		obs.Tabs = c06BuildTables(&in.Cfg, obs.View)
 		obs.Expect, obs.ExpectWhy = c06Expect(&in.Cfg, obs.View, in.JNow, obs.NowNs)
 	}
-	return vfCase{ID: id, Grp: "v", In: in, Obs: obs}
+	return obs
 }
 
 // ---------------------------------------------------------------------------
